@@ -50,6 +50,12 @@ const int kMaxDrainPasses = 60000;
 // BufferedFd.sendComplete_LittleData / _HugeData; the statement itself only has the "fires only when" half
 static const bool kCheckSendCompleteFires = true;
 
+// A unix-domain client that bound its own socket to a path of 14+ characters makes TcpAcceptor::onClientConnected() read past
+// its 16-byte `struct sockaddr` (stack-buffer-overflow under ASan; proposed-fixes/02).  The defect is outside the C06 statement
+// (it is about the peer address, not the byte stream), so the shape is not generated unless C06_NAMED_CLIENT is set in the
+// environment (replay corpus/C06/outside-statement/server-named-client.txt with it to see the report).
+static const bool kAvoid_named_unix_client = getenv("C06_NAMED_CLIENT") == nullptr;
+
 // ---- payload --------------------------------------------------------------------------------------
 inline uint8_t fbyte(uint32_t salt, uint64_t i) {
   uint32_t x = (uint32_t)i * 2654435761u + salt;
@@ -654,6 +660,7 @@ struct ServerEngine : Engine {
   std::vector<int> base_fds;
   size_t srv_thr = 0;
   int tbuf = 3, pbuf = 3, backlog = 4;
+  std::vector<std::string> named;
   ServerEngine(const Scenario &sc, CaseInfo &ci) : Engine(sc, ci, "server") {}
 
   Conn *by_token(const TcpServer::ConnToken &t) { for (size_t i = 0; i < tokens.size(); ++i) if (tokens[i] == t && !tokens[i].isNull()) return conns[i].get(); return nullptr; }
@@ -708,6 +715,16 @@ struct ServerEngine : Engine {
     if (conns.size() >= 3) return;
     int fd = addr.raw_socket(); if (fd < 0) return;
     apply_sockbuf(fd, pbuf);
+    if (!addr.inet && cfgv(7, 0, 6) == 6) {
+      if (kAvoid_named_unix_client) stats().counters["avoided_named_unix_client"]++;
+      else {
+        struct sockaddr_un me; memset(&me, 0, sizeof me); me.sun_family = AF_UNIX;
+        snprintf(me.sun_path, sizeof me.sun_path, "%s/client-%d-bound-to-a-path", scratch_dir().c_str(), (int)conns.size());
+        ::unlink(me.sun_path);
+        if (::bind(fd, (struct sockaddr*)&me, sizeof me) == 0) info.cls("named_unix_client");
+        named.push_back(me.sun_path);
+      }
+    }
     struct sockaddr_storage ss; socklen_t sl = addr.fill_raw(ss);
     int r = ::connect(fd, (struct sockaddr*)&ss, sl);
     if (r != 0 && addr.inet && errno == EINPROGRESS) { struct pollfd pf = {fd, POLLOUT, 0}; ::poll(&pf, 1, 200); r = 0; }
@@ -745,7 +762,11 @@ struct ServerEngine : Engine {
   }
   void op_enable() override { if (srv && srv->state() == TcpServer::State::kInited && !srv->start()) fail("server: start() after stop() failed"); }
   void before_drain() override { op_enable(); }
-  void teardown() override { if (srv) { srv->cleanup(); srv.reset(); for (auto &c : conns) c->tbox_gone = true; } }
+  void teardown() override {
+    if (srv) { srv->cleanup(); srv.reset(); for (auto &c : conns) c->tbox_gone = true; }
+    for (auto &p : named) ::unlink(p.c_str());
+    named.clear();
+  }
 };
 
 // =====================================================================================================
